@@ -112,6 +112,30 @@ def render(n, srcs):
     return img
 
 
+def step_maps(spec):
+    """image, rms map and bkg map of a field that straddles a step in the noise (column 60: rms 1.0 | 1.45) on a
+    sloping background.  Blended pairs straddle the step with the BRIGHTER peak on the noisy side below the seed
+    clip (peak SNR 4.8) and the fainter one on the quiet side above it (SNR 6), joined above the flood clip; plus
+    isolated sources on both sides and a negative pair."""
+    n = 120
+    rng = np.random.default_rng(spec['seed'])
+    x, y = np.indices((n, n))
+    sig = 5.0 / (2 * math.sqrt(2 * math.log(2)))
+
+    def g(amp, r0, c0):
+        return amp * np.exp(-((x - r0) ** 2 + (y - c0) ** 2) / (2 * sig ** 2))
+    img = rng.normal(0, 0.03, (n, n))
+    for k, r0 in enumerate((20, 50, 80)):
+        sgn = -1.0 if k == 2 else 1.0
+        img += sgn * (g(6.0, r0, 56.5) + g(7.0, r0, 62.0))
+    for (amp, r0, c0) in ((12.0, 15, 20.0), (9.0, 100, 30.0), (15.0, 40, 95.0), (-14.0, 100, 100.0), (8.0, 105, 62.0)):
+        img += g(amp, r0, c0)
+    rms = np.ones((n, n))
+    rms[:, 60:] = 1.45
+    bkg = 0.002 * x + 0.1
+    return (img + bkg).astype(np.float32), rms.astype(np.float32), bkg.astype(np.float32)
+
+
 def image_spec(kind, seed, nside, ra0=150.0, dec0=-30.0):
     """a small JSON-able recipe; `build_image` turns it into pixels deterministically"""
     return dict(kind=kind, seed=seed, nside=nside, ra0=ra0, dec0=dec0)
@@ -130,6 +154,14 @@ def build_image(spec):
     n = max(64, k * cell)
     if spec['kind'] == 'empty':
         return np.zeros((n, n), dtype=np.float32), n
+    if spec['kind'] == 'big':     # one island of > 1000 pixels (and a few compact sources)
+        n = 160
+        srcs = [(80.3, 79.6, 50.0, 6.0, 5.0, 30.0), (20.0, 20.0, 3.0, 2.0, 1.5, 0.0), (140.0, 30.0, -2.0, 1.8, 1.4, 40.0)]
+        return (render(n, srcs) * spec.get('scale', 1.0)).astype(np.float32), n
+    if spec['kind'] == 'step':    # mosaic-tile boundary: see step_maps()
+        n = 120
+        img, _, _ = step_maps(spec)
+        return img, n
     if spec['kind'] == 'pair':    # one positive, one negative, one negative blend, asymmetric so that argmax != argmin pixel
         srcs = [(20.3, 30.6, 5.0, 2.2, 1.5, 25.0), (55.7, 24.2, -4.0, 2.4, 1.4, -35.0),
                 (30.0, 60.0, -6.0, 2.0, 1.5, 10.0), (35.5, 63.0, -3.0, 1.8, 1.4, 60.0)]
@@ -178,6 +210,11 @@ def write_image(ctx, spec, tag):
         fits.PrimaryHDU(data, make_header(n, ra0=spec.get('ra0', 150.0), dec0=spec.get('dec0', -30.0),
                                          **{k: (tuple(v) if k == 'crpix_off' else v) for k, v in spec.get('hdr', {}).items()})
                         ).writeto(path, overwrite=True)
+        if spec['kind'] == 'step':      # the noise and background maps go next to the image (rmsin= / bkgin=)
+            _, rmsmap, bkgmap = step_maps(spec)
+            hdr = make_header(n, ra0=spec.get('ra0', 150.0), dec0=spec.get('dec0', -30.0))
+            fits.PrimaryHDU(rmsmap, hdr).writeto(path.replace('.fits', '_rms.fits'), overwrite=True)
+            fits.PrimaryHDU(bkgmap, hdr).writeto(path.replace('.fits', '_bkg.fits'), overwrite=True)
     return path, img
 
 
@@ -191,6 +228,35 @@ def quiet_log():
     log.handlers = [logging.NullHandler()]
     log.propagate = False
     return log
+
+
+class debug_logging:
+    """everything at DEBUG (root logger, the 'Aegean' logger the library modules use, the finder's own logger), handlers
+    silenced; restored on exit.  Code under `if log.isEnabledFor(DEBUG)` must not change any result."""
+
+    def __init__(self, on):
+        self.on = on
+
+    def __enter__(self):
+        if not self.on:
+            return quiet_log()
+        self.saved = []
+        for name in (None, 'Aegean', 'dummy', 'Aegean-verif-C03-debug'):
+            lg = logging.getLogger(name)
+            self.saved.append((lg, lg.level, list(lg.handlers), lg.propagate))
+            lg.handlers = [logging.NullHandler()]
+            lg.setLevel(logging.DEBUG)
+            if name is not None:
+                lg.propagate = False
+        return logging.getLogger('Aegean-verif-C03-debug')
+
+    def __exit__(self, *a):
+        if self.on:
+            for lg, lvl, hs, pr in self.saved:
+                lg.setLevel(lvl)
+                lg.handlers = hs
+                lg.propagate = pr
+        return False
 
 
 def xclass(v):
@@ -296,10 +362,18 @@ class Recorder:
         sfm.do_lmfit, sfm.errors, sfm.SourceFinder._fit_island, sfm.SourceFinder._refit_islands = self._orig
 
 
-def real_opts(opts):
-    """JSON-able options -> keyword arguments (`beam_override` = [a, b, pa] in degrees -> beam=Beam(...))"""
+def real_opts(opts, path=None):
+    """JSON-able options -> keyword arguments (`beam_override` = [a, b, pa] in degrees -> beam=Beam(...);
+    `maps` -> rmsin= / bkgin= files written next to the image; `outfile_buf` -> outfile=<text buffer>)"""
     o = dict(opts)
     o.pop('cube', None)
+    o.pop('debug', None)
+    if o.pop('maps', False):
+        o['rmsin'] = path.replace('.fits', '_rms.fits')
+        o['bkgin'] = path.replace('.fits', '_bkg.fits')
+    if o.pop('outfile_buf', False):
+        import io
+        o['outfile'] = io.StringIO()
     if 'beam_override' in o:
         from AegeanTools.wcs_helpers import Beam
         o['beam'] = Beam(*o.pop('beam_override'))
@@ -310,10 +384,10 @@ def run_blind(path, opts, record=True):
     from AegeanTools.source_finder import SourceFinder
     rec = Recorder().install() if record else None
     try:
-        sf = SourceFinder(log=quiet_log())
-        with warnings.catch_warnings():
+        with warnings.catch_warnings(), debug_logging(opts.get('debug', False)) as lg:
             warnings.simplefilter('ignore')
-            out = sf.find_sources_in_image(path, cores=1, **dict(dict(nonegative=False, nopositive=False), **real_opts(opts)))
+            sf = SourceFinder(log=lg)
+            out = sf.find_sources_in_image(path, cores=1, **dict(dict(nonegative=False, nopositive=False), **real_opts(opts, path)))
     finally:
         if rec:
             rec.remove()
@@ -324,11 +398,11 @@ def run_prior(path, catalogue, opts, record=True):
     from AegeanTools.source_finder import SourceFinder
     rec = Recorder().install() if record else None
     try:
-        sf = SourceFinder(log=quiet_log())
-        with warnings.catch_warnings():
+        with warnings.catch_warnings(), debug_logging(opts.get('debug', False)) as lg:
             warnings.simplefilter('ignore')
+            sf = SourceFinder(log=lg)
             mine = copy.deepcopy(catalogue)     # the caller-owned list of source objects handed to the API
-            out = sf.priorized_fit_islands(path, catalogue=mine, cores=1, **real_opts(opts))
+            out = sf.priorized_fit_islands(path, catalogue=mine, cores=1, **real_opts(opts, path))
             # the input catalogue is the caller's: same objects, same order, same values afterwards
             sf._verif_mutated = None
             if len(mine) != len(catalogue):
@@ -490,7 +564,7 @@ def independent_flood(truth, inner, outer_eff):
     kept when one of its pixels exceeds inner.  Returns (labels, {label: (npix, [xmin, xmax, ymin, ymax])})"""
     from scipy.ndimage import label as nd_label, find_objects as nd_find
     img, rms = truth
-    snr = np.abs(img) / np.float32(rms)
+    snr = np.abs(img) / np.asarray(rms, dtype=np.float32)
     a = np.isfinite(snr) & (snr >= outer_eff)
     lab, n = nd_label(a, structure=np.ones((3, 3)))
     info = {}
@@ -794,7 +868,26 @@ def rerun_and_diff(ctx, J, label, kind, path, opts, out, catalogue=None):
                dict(site='reproducible', clause='in-process'))
 
 
-def child_run(ctx, J, label, job, out, sig=None, what='the same run in a fresh process'):
+def debug_rerun(ctx, J, label, kind, path, opts, out, catalogue=None):
+    """the same run with every logger at DEBUG: bit-identical catalogue"""
+    o = dict(opts, debug=True)
+    try:
+        if kind == 'blind':
+            out2, _, _ = run_blind(path, o, record=False)
+        else:
+            out2, _, _ = run_prior(path, catalogue, o, record=False)
+    except Exception as e:  # noqa: BLE001
+        J.fail('spec', f"{label}: with logging at DEBUG the run aborts with {type(e).__name__}: {e}",
+               dict(site='reproducible', what='logging-dependence', clause='aborts'))
+        return
+    ctx.count('debug-slice-runs')
+    d = diff_canon(canon(out), canon(out2))
+    if d:
+        J.fail('spec', f"{label}: the same run with the loggers at DEBUG gives a different catalogue: {d}",
+               dict(site='reproducible', what='logging-dependence', clause='differs'))
+
+
+def child_run(ctx, J, label, job, out, sig=None, what='the same run in a fresh process', other_env=False):
     """same input in a fresh interpreter"""
     tmp = ctx.tmpdir()
     jf = os.path.join(tmp, f'job_{abs(hash(label)) % 10**8}.json')
@@ -802,7 +895,13 @@ def child_run(ctx, J, label, job, out, sig=None, what='the same run in a fresh p
     with open(jf, 'w') as f:
         json.dump(job, f)
     env = dict(os.environ, AEGEAN_REPO=common.repo_path())
-    p = subprocess.run([sys.executable, HERE, '--child', jf, of], stdout=subprocess.PIPE, stderr=subprocess.PIPE, text=True,
+    pyflags = []
+    if other_env:     # asserts compiled away, another time zone, a locale with unusual case/decimal rules
+        pyflags = ['-O']
+        env.update(TZ='Australia/Perth', LC_ALL='tr_TR.UTF-8', LANG='tr_TR.UTF-8')
+        what += ' (python -O, TZ=Australia/Perth, LC_ALL=tr_TR.UTF-8)'
+        ctx.count('rerun-fresh-process-other-environment')
+    p = subprocess.run([sys.executable] + pyflags + [HERE, '--child', jf, of], stdout=subprocess.PIPE, stderr=subprocess.PIPE, text=True,
                        env=env, timeout=1800)
     ctx.count('rerun-fresh-process')
     if p.returncode != 0 or not os.path.exists(of):
@@ -956,8 +1055,10 @@ def option_product(ctx):
 def scenario_options(ctx):
     J = Judge(ctx, dict(scenario='options'))
     for n, (c, m, d, b, pp, cu) in enumerate(option_product(ctx)):
-        spec = dict(image_spec('grid', 8500 + ctx.seed + n % 3, 3), cube=cu)
+        spec = dict(image_spec('grid', 8500 + ctx.seed + n % 3, 3, ra0=(150.0, -10.0, 370.0, -359.5)[(n + n // 4) % 4]), cube=cu)
         opts = dict(rms=0.05, bkg=0.0, innerclip=c[0], outerclip=c[1], doislandflux=d, blank=b, **pp)
+        if n % 5 == 2:
+            opts['outfile_buf'] = True
         if m is not None:
             opts['max_summits'] = m
         if cu:
@@ -1075,11 +1176,14 @@ def scenario_history(ctx, variant, nside=3, seed=None):
     ctx.case(case, nontrivial_key=('history', variant, ctx.seed))
 
 
-def scenario_blind(ctx, tag, spec, opts, rerun=True, child=False, roundtrip=False, batch=None):
+def scenario_blind(ctx, tag, spec, opts, rerun=True, child=False, roundtrip=False, batch=None, debug=False):
     case = dict(scenario=tag, mode='blind', image=spec, opts={k: v for k, v in opts.items()})
     J = Judge(ctx, case) if batch is None else batch.sub(case)
     path, img = write_image(ctx, spec, tag)
     truth = (img - np.float32(opts.get('bkg', 0.0)), opts['rms']) if opts.get('rms') else None
+    if opts.get('maps') and spec['kind'] == 'step':
+        _, rmsmap, bkgmap = step_maps(spec)
+        truth = (img - bkgmap, rmsmap)
     label = f"blind[{tag}]"
     try:
         out, rec, sf = run_blind(path, opts)
@@ -1092,6 +1196,8 @@ def scenario_blind(ctx, tag, spec, opts, rerun=True, child=False, roundtrip=Fals
     judge_blind(J, out, rec, sf, opts, label, truth)
     if rerun:
         rerun_and_diff(ctx, J, label, 'blind', path, opts, out)
+    if debug:
+        debug_rerun(ctx, J, label, 'blind', path, opts, out)
     if child:
         child_run(ctx, J, label, dict(kind='blind', image=spec, opts=opts), out)
     if roundtrip:
@@ -1107,7 +1213,7 @@ def scenario_blind(ctx, tag, spec, opts, rerun=True, child=False, roundtrip=Fals
     return comps, path
 
 
-def scenario_prior(ctx, tag, spec, path, inp, opts, rerun=True, child=False, roundtrip=False):
+def scenario_prior(ctx, tag, spec, path, inp, opts, rerun=True, child=False, roundtrip=False, debug=False):
     case = dict(scenario=tag, mode='priorized', image=spec, opts=dict(opts), n_input=len(inp))
     J = Judge(ctx, case)
     label = f"priorized[{tag} stage={opts.get('stage', 3)} regroup={opts.get('doregroup', True)}]"
@@ -1130,9 +1236,11 @@ def scenario_prior(ctx, tag, spec, path, inp, opts, rerun=True, child=False, rou
                     cause='input-catalogue-modified-in-place' if only_ab else 'other'))
     if rerun:
         rerun_and_diff(ctx, J, label, 'prior', path, opts, out, catalogue=inp)
+    if debug:
+        debug_rerun(ctx, J, label, 'prior', path, opts, out, catalogue=inp)
     if child:
         child_run(ctx, J, label, dict(kind='prior', image=spec, opts=opts, blind_opts=case.get('blind_opts'),
-                                      catalogue=[src_to_dict(s) for s in inp]), out)
+                                      catalogue=[src_to_dict(s) for s in inp]), out, other_env=True)
     if roundtrip:
         save_roundtrip(ctx, J, label, out)
     J.flush()
@@ -1369,7 +1477,22 @@ def run(ctx):
     scenario_injected_nan(ctx, 'blind')
     scenario_injected_nan(ctx, 'priorized')
     # an all-negative and a positive island with island rows (peak pixel of a negative island = its minimum)
-    scenario_blind(ctx, 'neg-island', dict(kind='pair', seed=0, nside=2), dict(rms=0.05, bkg=0.0, doislandflux=True), rerun=False)
+    scenario_blind(ctx, 'neg-island', dict(kind='pair', seed=0, nside=2), dict(rms=0.05, bkg=0.0, doislandflux=True), rerun=False,
+                   debug=True)
+    # the same with CRVAL1 = -10 (wcslib then reports longitudes in (-360, 0]) and CRVAL1 = 370
+    for ra0 in (-10.0, 370.0):
+        scenario_blind(ctx, f'neg-island-crval{int(ra0)}', dict(kind='pair', seed=0, nside=2, ra0=ra0),
+                       dict(rms=0.05, bkg=0.0, doislandflux=True), rerun=False)
+    # noise and background maps from files, with a step (mosaic tile boundary) inside blended islands
+    for ra0 in (150.0, -10.0):
+        spec_s = dict(kind='step', seed=20240305 + ctx.seed, nside=3, ra0=ra0)
+        cs, ps = scenario_blind(ctx, f'step-maps{int(ra0)}', spec_s, dict(maps=True, doislandflux=True), rerun=False,
+                                debug=(ra0 > 0))
+        if cs:
+            scenario_prior(ctx, f'step-maps{int(ra0)}', spec_s, ps, cs, dict(maps=True, stage=3 if ra0 > 0 else 2,
+                                                                            doregroup=(ra0 < 0)), rerun=False, debug=(ra0 > 0))
+    # an island of more than 1000 pixels
+    scenario_blind(ctx, 'big-island', dict(kind='big', seed=0, nside=4), dict(rms=0.05, bkg=0.0, doislandflux=True), rerun=False)
     scenario_history(ctx, 'header-beam')
     scenario_history(ctx, 'beam-override')
     scenario_history(ctx, 'same-file')
@@ -1406,10 +1529,11 @@ def run(ctx):
             scenario_prior(ctx, 'grid-again', spec, path, outp, dict(forced, stage=2, doregroup=False), rerun=False)
 
     # S2b: a second grid (other seed): island flux + priorized stage 2 with regrouping, fresh-process re-run
-    spec2 = image_spec('grid', 1500 + seed, 5 if q else 8)
+    spec2 = image_spec('grid', 1500 + seed, 8, ra0=-10.0)      # 320 x 320 = 102400 pixels (> 2^16), CRVAL1 < 0
     comps2, path2 = scenario_blind(ctx, 'grid2-island', spec2, dict(forced, doislandflux=True), rerun=False)
     if comps2:
-        scenario_prior(ctx, 'grid2', spec2, path2, comps2, dict(forced, stage=2, doregroup=True), rerun=False, child=not q)
+        scenario_prior(ctx, 'grid2', spec2, path2, comps2, dict(forced, stage=2, doregroup=True), rerun=False, child=not q,
+                       debug=True)
 
     # S2c: cut-outs of wide mosaics: the projection's reference pixel is 12-25 degrees outside the image, so the
     # local pixel->sky scale (and with it a, b and the local psf) differs from CDELT / the header beam by several
@@ -1417,7 +1541,7 @@ def run(ctx):
     wide = [('SIN', (2000.0, 0.0), 30.0), ('TAN', (-900.0, 1200.0), 45.0), ('ARC', (0.0, -1000.0), 60.0),
             ('ZEA', (1400.0, 1400.0), 30.0), ('STG', (-1800.0, 300.0), 40.0), ('SIN', (-1500.0, -1500.0), 60.0)]
     for gi, (proj, off, arcsec) in enumerate(wide[:(2 if q else len(wide))]):
-        spec_g = dict(image_spec('grid', 7000 + 10 * seed + gi, 3 if q else 5),
+        spec_g = dict(image_spec('grid', 7000 + 10 * seed + gi, 3 if q else 5, ra0=(150.0, -10.0)[gi % 2]),
                       hdr=dict(proj=proj, crpix_off=list(off), cd=arcsec / 3600., bmaj=4.5, bmin=3.5, bpa=30.0))
         cg, pg = scenario_blind(ctx, f'wide-{proj}{gi}', spec_g, dict(forced, doislandflux=(not q or gi == 1)),
                                 rerun=False, child=(gi == 0 and not q))
